@@ -2060,3 +2060,25 @@ func verifSetConfigTimeout(d time.Duration) func() {
 	}
 	return func() { field.Set(old) }
 }
+
+/*
+	The very first thing a process does: a collection page of embedded notes is opened (they are built side by side), nothing
+	having been rendered before.  Run in a process of its own under the race detector.
+*/
+func TestVerifFirstRender(t *testing.T) {
+	w, out := verifSetup(t)
+	defer out.Close()
+	defer w.sim.Cleanup()
+	notes := []any{}
+	for k := 0; k < 8; k++ {
+		notes = append(notes, map[string]any{"id": w.h.URL(fmt.Sprintf("/first/n%d", k)), "type": "Note", "content": fmt.Sprintf("<p>first <b>render</b> %d <a href=\"https://x.example/%d\">l</a></p>", k, k),
+			"published": "2024-01-01T00:00:00Z"})
+	}
+	w.put("/first", map[string]any{"type": "OrderedCollection", "totalItems": len(notes), "orderedItems": notes})
+	v := verifNewSession(w, out, 1, false)
+	returned := 0
+	if err := v.s.Subcommand("open", w.h.URL("/first")); err == nil && v.settle(10*time.Second) {
+		returned = 1
+	}
+	out.Emit(verifkit.M{"ev": "liveness", "sid": 1, "scenario": "a page of embedded notes opened as the first thing the process does", "issued": 1, "returned": returned})
+}
